@@ -61,6 +61,7 @@ type World struct {
 	ignoreContracts map[*ssa.Function]bool
 	lockTags   []string
 	relyTags   map[string][]string
+	deterministicIface map[string]bool
 }
 
 const contractsFile = "zz_contracts_verif.go"
@@ -70,7 +71,7 @@ func Load(repo string, pkgPatterns []string, contractsMirror string) (*World, er
 	w := &World{repo: repo, spkgs: map[string]*ssa.Package{}, scope: map[string]bool{}, contracts: map[*ssa.Function]*LoadedContract{},
 		byName: map[string]*LoadedContract{}, lemmas: map[string]*LoadedLemma{}, relies: map[string]string{}, guards: map[string]string{},
 		frames: map[*ssa.Function]*frameInfo{}, frameBusy: map[*ssa.Function]bool{}, implCache: map[string][]implInfo{}, spawnIDs: map[string]int{},
-		cloTab: map[*Exec]map[string]*Closure{}, ignoreContracts: map[*ssa.Function]bool{}}
+		cloTab: map[*Exec]map[string]*Closure{}, ignoreContracts: map[*ssa.Function]bool{}, deterministicIface: map[string]bool{}}
 	overlay := map[string][]byte{}
 	for _, pat := range pkgPatterns {
 		dir := filepath.Join(repo, strings.TrimPrefix(pat, "./"))
@@ -142,6 +143,9 @@ func Load(repo string, pkgPatterns []string, contractsMirror string) (*World, er
 		}
 		for k, v := range sf.Guards {
 			w.guards[k] = v
+		}
+		for _, d := range sf.Deterministic {
+			w.deterministicIface[d] = true
 		}
 	}
 	// bind contracts to functions
